@@ -553,7 +553,7 @@ const KIND_TABLE = {
   undefined: () => undefined, null: () => null, true: () => true, false: () => false,
   number: (p) => { const b = new SymNumV(p); st.boxes.set(p, b); return b; }, string: (p) => { const b = new SymStrV(p); st.boxes.set(p, b); return b; }, bigint: () => 7n,
   date: () => new Date(86400000), invaliddate: () => new Date(NaN), function: () => function f() {},
-  u8array: () => Uint8Array.of(1, 2), f64array: () => Float64Array.of(1.5), map0: () => new Map(), set0: () => new Set(),
+  u8array: () => Uint8Array.of(1, 2), buffer: () => Buffer.from([1, 2]), f64array: () => Float64Array.of(1.5), map0: () => new Map(), set0: () => new Set(),
   symbol: () => Symbol('s'),
 };
 function depthOf(path) { return (path.match(/[.\[<]/g) || []).length; }
@@ -705,7 +705,7 @@ Object.assign($S, {
       case 'bigint': return 7n;
       case 'date': return new Date(86400000); case 'invaliddate': return new Date(NaN);
       case 'function': return function f() {};
-      case 'u8array': return Uint8Array.of(1, 2); case 'f64array': return Float64Array.of(1.5);
+      case 'u8array': return Uint8Array.of(1, 2); case 'buffer': return Buffer.from([1, 2]); case 'f64array': return Float64Array.of(1.5);
       case 'symbol': return Symbol('s');
       default: throw new Error('decode ' + JSON.stringify(j));
     }
